@@ -18,7 +18,7 @@ C06_CLAUSES = {"FlowsNonNeg", "OnlyDairyExports", "TransferConserved", "HoursWit
                "OncePerMonth", "AllBirthsFirst", "AllSlaughterFirst"}
 
 # (MLI and GEO: small meat herds next to large dairy herds - the hand-over dominates their ledger; both carry a recorded finding)
-QUICK_CC = ["ARG", "USA", "IND", "CHN", "NZL", "DJI", "LSO", "EST", "SLV", "ECU", "JPN", "ZAF", "WOR", "MNG", "SAU", "MLI", "GEO"]
+QUICK_CC = ["ARG", "USA", "IND", "CHN", "NZL", "DJI", "LSO", "EST", "SLV", "ECU", "JPN", "ZAF", "WOR", "MNG", "SAU", "MLI", "GEO", "SWT", "LUX"]
 STRATS = ["baseline", "reduced", "feed_only_ruminants"]
 SERIES = [("zero", "zero"), ("partial", "partial"), ("rand", "rand"), ("ample", "zero"), ("drop", "ramp"),
           ("ramp", "drop"), ("zero", "ample"), ("rand", "partial")]
